@@ -25,6 +25,7 @@ import Dawgs.Proofs.C01ChainSound
 import Dawgs.Proofs.C01Count
 import Dawgs.Proofs.C01CountHop
 import Dawgs.Proofs.C01Limit
+import Dawgs.Proofs.C01With
 namespace Dawgs.C01.Props
 open Dawgs Dawgs.Sql Dawgs.C01.Proofs
 
@@ -428,6 +429,49 @@ theorem tr_sound_S2L_forced (km : KindMap) (g : Graph) (hok : GraphOK2 km g) (s 
 def exLimQ : S2L.Query := ⟨⟨"a", "r", "b", [], [], [], [], [.prop .a "name" none]⟩, 2⟩
 example : (ofCyLimit2 exLimQ.toCy == some exLimQ) = true := by decide +kernel
 example : (exLimQ.trWith [("K", 1)] false true true).isSome = true ∧ (exLimQ.trWith [("K", 1)] false true false).isSome = true := by decide +kernel
+
+/-! ### stage S3a: one WITH between a node MATCH and the RETURN, plain projection items — `tr7F` -/
+
+theorem ofCyWith_sound (q : Cy.Query) (s : S3.Query) (h : ofCyWith q = some s) : s.toCy = q := Proofs.ofCyWith_sound q s h
+
+theorem tr7_some (flipOf : S2.Query → Bool) (flipCh : Ch.Query → Bool) (flipN : S2n.Query → Bool) (fast prune push : Bool) (km : KindMap) (q : Cy.Query)
+    (st : Stmt) (ps : List (String × Val)) (h : tr7F flipOf flipCh flipN fast prune push km q = some (st, ps)) :
+    (ofCyWith q = none ∧ tr6F flipOf flipCh flipN fast prune push km q = some (st, ps)) ∨
+    (∃ s : S3.Query, ofCyWith q = some s ∧ s.toCy = q ∧ s.tr km = some st ∧ ps = []) := by
+  unfold tr7F at h
+  cases ho : ofCyWith q with
+  | none => rw [ho] at h; exact Or.inl ⟨rfl, h⟩
+  | some s =>
+    rw [ho] at h
+    simp only [Option.map_eq_some_iff] at h
+    obtain ⟨st', hst, heq⟩ := h
+    cases heq
+    exact Or.inr ⟨s, rfl, ofCyWith_sound q s ho, hst, rfl⟩
+
+/-- `tr_sound_S3a`: MATCH (n[:K…]) [WHERE p] WITH w1, …, wk RETURN r1, …, rm with wi ::= n | n AS m | n.k AS x and rj ::= m | m.k | id(m) | x
+[AS a] over the exported names — for every graph with `GraphOK`: whenever the nested statement
+`with s0 as (with s1 as (<node frame>) select <wi> from s1) select <rj> from s0` evaluates, the reference semantics yields a result and both
+show the client the same rows in the same order -/
+theorem tr_sound_S3a (km : KindMap) (g : Graph) (hok : GraphOK km g) (s : S3.Query) (st : Stmt) (h : s.tr km = some st) (t : Table)
+    (ht : Sql.eval (encode km g) st [] = .ok t) : ∃ r, Cy.eval .none g s.toCy = .ok r ∧ Agree km g t r := by
+  obtain ⟨r, names, rows, hr, hsql, hrows⟩ := s3_sound km g hok s st h
+  rcases hsql with hsql | ⟨w, hsql⟩
+  · rw [hsql] at ht; cases ht; exact ⟨r, hr, hrows⟩
+  · rw [hsql] at ht; cases ht
+
+/-- the reference semantics is defined on every query of the stage, and the statement never ends in an SQL run-time error of the model -/
+theorem tr_total_S3a (km : KindMap) (g : Graph) (hok : GraphOK km g) (s : S3.Query) (st : Stmt) (h : s.tr km = some st) :
+    (∃ r, Cy.eval .none g s.toCy = .ok r) ∧ (∀ m, Sql.eval (encode km g) st [] ≠ .error (.runtime m)) := by
+  obtain ⟨r, names, rows, hr, hsql, _⟩ := s3_sound km g hok s st h
+  refine ⟨⟨r, hr⟩, fun m hm => ?_⟩
+  rcases hsql with hsql | ⟨w, hsql⟩
+  · rw [hsql] at hm; cases hm
+  · rw [hsql] at hm; cases hm
+
+/-- the stage is inhabited: MATCH (n:K) WHERE n.a = 1 WITH n AS m, n.name AS x RETURN m, x, id(m) is recognised as itself and translated -/
+def exWithQ : S3.Query := ⟨"n", ["K"], some (.propEqInt false "a" 1), [.node (some "m"), .prop "name" "x"], [.node 0 none, .val 1 none, .id 0 none]⟩
+example : (ofCyWith exWithQ.toCy == some exWithQ) = true := by decide +kernel
+example : (exWithQ.tr [("K", 1)]).isSome = true := by decide +kernel
 
 theorem ofCyCount2_sound (q : Cy.Query) (s : S2n.Query) (h : ofCyCount2 q = some s) : s.toCy = q := Proofs.ofCyCount2_sound q s h
 
